@@ -509,7 +509,12 @@ def run(ctx, prj: Project):
     ctx.complement("R4", lambda: rule_R4(ctx, prj), decided=r5_ok, by="the evaluated scan histories (R5)")
     try:
         r = Reader(prj)
-        rule_R1(ctx, prj, r)
+        if r5_ok:
+            # every parse, shape and encoding fault of the cache document was put in front of the interpreted command (R5) and
+            # the scan completed: a handler the must-handle reading does not see (behind a helper that calls a lambda) is there
+            ctx.complement("R1", lambda: rule_R1(ctx, prj, r), True, demote=True, by="the evaluated scan histories (R5)")
+        else:
+            rule_R1(ctx, prj, r)
     except AnalysisError as e:
         if not decided or ctx.floors.get("R5", 0) == 0:
             raise
